@@ -29,6 +29,43 @@ def run(ck):
         ck.kcompare(page, exe, "c01", hist, model_args=margs, corpus_prefix=page.rstrip("n"), what="B-tree (build %s: leaf %d / inode %d values) differs from the model" % ((page,) + cfg[:2]))
 
     known_height(ck)
+    rejected_geometries(ck)
+
+def rejected_geometries(ck):
+    """Page sizes outside the theorems' hypotheses (Cfg.Valid needs INODE_VALS >= 3; iterator indexes are 16 bits) must be
+    refused by the sources.  If one compiles, the harness's own set oracle looks for the failing history on that build."""
+    import os, subprocess
+    from vlib import REPO, sh, SAN, FEATURES, GUARD, VERIF
+    ck.cov["rejected_geometries"] = {}
+    for page, mode in [(32, "small"), (1 << 20, "big"), (1 << 21, "big")]:
+        exe = os.path.join(ck.work, "h_c01_geom%d" % page)
+        r = sh(["gcc", "-std=gnu11"] + SAN + ["-I", os.path.join(REPO, "include"), "-I", os.path.join(REPO, "src"), "-I", os.path.join(VERIF, "harness")] + FEATURES + [GUARD,
+                "-DZIX_BTREE_PAGE_SIZE=%dU" % page, "-DZIX_BTREE_MAX_HEIGHT=24U", os.path.join(VERIF, "harness/h_c01.c"), os.path.join(REPO, "src/allocator.c"), "-o", exe])
+        ck.cov["obligations"] += 1
+        if r.returncode != 0:
+            if "static assertion failed" in (r.stderr or "") or "static_assert" in (r.stderr or ""):
+                ck.cov["rejected_geometries"][str(page)] = "rejected at compile time"
+                ck.cov["discharged"] += 1
+                continue
+            ck.machinery_error("B-tree harness for page size %d does not compile for another reason:\n%s" % (page, (r.stderr or "")[-1500:])); return
+        ck.cov["rejected_geometries"][str(page)] = "ACCEPTED"
+        env = dict(os.environ, ASAN_OPTIONS="detect_leaks=0:abort_on_error=0:allocator_may_return_null=1")
+        found = None
+        if mode == "small":
+            for seed in range(1, 40):
+                o = subprocess.run([exe, "--selftest", str(seed), "400", "24"], capture_output=True, text=True, env=env, timeout=300)
+                if "SELFTEST-OK" not in o.stdout:
+                    found = "# %s/h_c01 (page size %d) --selftest %d 400 24\n%s\n%s" % ("harness", page, seed, o.stdout[-6000:], (o.stderr or "")[-1500:]); break
+        else:
+            o = subprocess.run([exe, "--bigleaf", "70000"], capture_output=True, text=True, env=env, timeout=600)
+            if "BIGLEAF-OK" not in o.stdout:
+                found = "# harness/h_c01 (page size %d) --bigleaf 70000\n%s\n%s" % (page, o.stdout[-3000:], (o.stderr or "")[-1500:])
+        head = ("# property C01 — the sources accept ZIX_BTREE_PAGE_SIZE=%d, a page geometry outside the hypotheses of the B-tree theorems (Cfg.Valid: INODE_VALS >= 3; "
+                "leaf positions must fit the iterator's 16-bit indexes)\n" % page)
+        if found:
+            ck.report_violation("geom", head + "# verdict: concrete failing history found on that build by the harness's own sorted-set oracle\n#--- failing input\n" + found)
+        else:
+            ck.report_violation("geom", head + "# verdict: no-failing-input-found\n", found=False)
 
 def known_height(ck):
     """Replay of the recorded finding: page 64 with the default maximum height."""
